@@ -4,3 +4,4 @@ pub mod c03;
 pub mod c09;
 pub mod c08;
 pub mod c10;
+pub mod c07;
